@@ -239,6 +239,9 @@ def r3_tail_says(cx):
     d = F.one(impl_self="ClusterWriter", item="write_cluster_data", closure=False)
     db = F.body(d)
     cp = db.calls(r"OutStream>::copy$")
+    for c_ in F.closures_of(d):       # `data.into_iter().try_fold(0, |n, input| Ok(n + stream.copy(input)?.0))`
+        if "blocks" in c_:
+            cp = cp + F.body(c_).calls(r"OutStream>::copy$")
     cx.ob("R3", "R3/raw-copy-verbatim", len(cp) == 1 and not db.calls(r"compress|Encoder"), d, "write_cluster_data copies each input verbatim with OutStream::copy")
     c = F.one(impl_self="ClusterCompressor", item="compress_cluster", closure=False)
     cb = F.body(c)
@@ -395,7 +398,36 @@ def r5_compressors_only_emit_compressed_clusters(cx):
           "the compressor workers build WriteTask::Compressed (%d sites) and never the raw task (raw task built at lines %s)" % (comp, [ln for _, ln in raw]))
 
 
+def r6_configured_compression_is_the_one_used(cx):
+    """'the hint decides' within the compression the caller configured: the constructor every other one goes through hands
+    the `Compression` it was given, unchanged, to the cluster writer and keeps that same value for the routing decision --
+    no level or variant is rewritten on the way (level 0 of lz4 / xz / zstd is a compressing level, not "store")."""
+    F = cx.F
+    f = F.one(impl_self="ContentPackCreator", item="new_from_output_with_progress", closure=False)
+    b = F.body(f)
+    ps = [l for l in range(1, f["arg_count"] + 1) if (f["locals"][l].get("ty") or "").endswith("creator::Compression")]
+    if len(ps) != 1:
+        raise AnchorLost("new_from_output_with_progress: Compression parameters: %s" % ps)
+    same = b.whole_copies(set(ps))
+    cw = b.calls(r"clusterwriter::ClusterWriterProxy::<.*>::new$")
+    aggs = [st for blk in b.blocks if not blk.get("cleanup") for st in blk["s"] if st["k"] == "assign" and st["rv"]["k"] == "agg"
+            and (st["rv"].get("adt") or "").endswith("creator::ContentPackCreator") and "compression" in (st["rv"].get("fnames") or [])]
+    if not cw or not aggs:
+        raise AnchorLost("new_from_output_with_progress: ClusterWriterProxy::new sites %d, ContentPackCreator literals %d" % (len(cw), len(aggs)))
+    ok = True
+    for i, t in cw:
+        args = [a for a in t["args"] if op_place(a) is not None and (b.locals[op_place(a)["l"]].get("ty") or "").endswith("creator::Compression")]
+        ok = ok and bool(args) and all(op_place(a)["l"] in same and not op_place(a).get("p") for a in args)
+    for st in aggs:
+        pl = op_place(st["rv"]["fields"][st["rv"]["fnames"].index("compression")])
+        ok = ok and pl is not None and pl["l"] in same and not pl.get("p")
+    rebuilt = [st.get("ln") for blk in b.blocks if not blk.get("cleanup") for st in blk["s"] if st["k"] == "assign" and st["rv"]["k"] == "agg" and (st["rv"].get("adt") or "").endswith("creator::Compression")]
+    cx.ob("R6", "R6/new_from_output_with_progress/compression-passed-on-unchanged", ok and not rebuilt, f,
+          "the Compression parameter reaches ClusterWriterProxy::new and the `compression` field as it was given (Compression values built in the constructor: lines %s)" % rebuilt)
+
+
 RULES = [
+    ("R6", r6_configured_compression_is_the_one_used, 1),
     ("R5", r5_compressors_only_emit_compressed_clusters, 1),
     ("R1", r1_decision_table, 6),
     ("R2", r2_flag_carried, 6),
